@@ -196,7 +196,10 @@ def init_shard(tier, seed):
     import klongpy.parser as P
     import klongpy.interpreter as KI
     from vf.mon.stepbudget import StepBudget
-    sb = StepBudget([P, KI])
+    import sys as _sys
+    import klongpy.adverbs, klongpy.monads, klongpy.dyads, klongpy.sys_fn, klongpy.backends.base, klongpy.backends.numpy_backend, klongpy.types, klongpy.writer, klongpy.autograd
+    extra = [m for n, m in list(_sys.modules.items()) if n.startswith("klongpy.") and m is not None and n not in ("klongpy.parser", "klongpy.interpreter") and "torch" not in n]
+    sb = StepBudget([P, KI], extra)
     sb.install()
     return {"sb": sb}
 
@@ -248,7 +251,7 @@ def _eval_prog(sb, k, prog):
         for p in prog:
             r = k.call(p)
         return r
-    return sb.run(EVAL_BUDGET, run)
+    return sb.run(EVAL_BUDGET, run, wide=True)
 
 
 def _has_io(s):
